@@ -41,7 +41,7 @@ CONV_EXACT = [("f32", "f64"), ("c64", "c128"), ("f64", "f64"), ("f32", "f32"), (
 CONV_NARROW = [("f64", "f32"), ("c128", "c64")]
 CONV_RAISE = [("c64", "f32"), ("c128", "f64")]
 DE_CONV = [("f32", "f64"), ("c64", "c128")]
-TRACE_T = {"quick": (1, 2, 5, 11, 16), "thorough": (1, 2, 5, 11, 16, 23, 32, 40)}
+TRACE_T = {"quick": (3, 16), "thorough": (2, 5, 11, 16, 23, 32, 40)}
 
 
 def _menu(kind, tier, T):
@@ -66,10 +66,9 @@ def cases(tier, seed):
         tr = T in TRACE_T[tier]
         out.append(dict(kind="none", T=T, k=None, trace=tr))
         out.append(dict(kind="D", T=T, k=None, trace=tr))
-        for k in range(1, Kmax + 1):
-            trk = tr and k in (1, 2, Kmax)
-            for kind in ("E", "DE", "ED", "EE"):
-                out.append(dict(kind=kind, T=T, k=k, trace=trk, convs=_menu(kind, tier, T)))
+        for kind in ("E", "DE", "ED", "EE"):
+            for k in range(1, Kmax + 1):
+                out.append(dict(kind=kind, T=T, k=k, trace=tr and k in (2, Kmax), convs=_menu(kind, tier, T)))
     for c in out:
         c["seed"] = seed
         c["L"] = Tmax
@@ -91,7 +90,7 @@ def bounds(tier, seed):
             "EE": f"[every-k(k,start), every-k(k',start')] for (k',start') in {K2MENU[tier]}, start' < slots of the first filter",
         },
         "histories": "one-hot impulse at every t (vector of length T), every t' >= start decompressed; dtype-only/no-module pipelines and all jitted replays carry a dense all-distinct/seed history of shape (2,3) as a second key",
-        "traces": f"jit+fori_loop replays for T in {TRACE_T[tier]}, k in (1,2,{Kmax}), start in (0,1,T//2)",
+        "traces": f"jit+fori_loop replays for T in {TRACE_T[tier]}, k in (2,{Kmax}), start in (0,1), first dtype pair / (k',start')=(2,1)",
         "tolerance": {"float64": TOL64, "float32-paths": TOL32, "saved steps / widening": "=="},
         "seed": seed,
     }
@@ -364,7 +363,7 @@ def run_case(case):
             fails += _check_exact([], T, dt, "exact", seed, trace and dt == "f64", acc, "no-modules")
     elif kind == "D":
         for a, b in CONV_EXACT:
-            fails += _check_exact([("D", b)], T, a, "exact", seed, trace and (a, b) in (("f32", "f64"), ("c64", "c128")), acc, f"dtype:{a}->{b}")
+            fails += _check_exact([("D", b)], T, a, "exact", seed, trace and (a, b) == ("c64", "c128"), acc, f"dtype:{a}->{b}")
         for a, b in CONV_NARROW:
             fails += _check_exact([("D", b)], T, a, "narrow", seed, trace and a == "f64", acc, f"dtype:{a}->{b}")
         if T == 1:
@@ -379,7 +378,7 @@ def run_case(case):
                 except ValueError:
                     acc["outcome"]["documented-ValueError"] = acc["outcome"].get("documented-ValueError", 0) + 1
     else:
-        tstarts = {0, min(1, T - 1), T // 2}
+        tstarts = {0, min(1, T - 1)}
         convs = case["convs"]
         L = case.get("L")
         for start in range(T):
@@ -388,10 +387,10 @@ def run_case(case):
                 fails += _check_interp([("E", k, start)], [(k, start)], T, "f64", TOL64, seed, tr, acc, "everyk", L)
             elif kind == "DE":
                 for a, b in convs:
-                    fails += _check_interp([("D", b), ("E", k, start)], [(k, start)], T, a, TOL32, seed, tr, acc, f"dtype({a}->{b})>everyk", L)
+                    fails += _check_interp([("D", b), ("E", k, start)], [(k, start)], T, a, TOL32, seed, tr and (a, b) == tuple(convs[0]), acc, f"dtype({a}->{b})>everyk", L)
             elif kind == "ED":
                 for a, b in convs:
-                    fails += _check_interp([("E", k, start), ("D", b)], [(k, start)], T, a, TOL32, seed, tr, acc, f"everyk>dtype({a}->{b})", L)
+                    fails += _check_interp([("E", k, start), ("D", b)], [(k, start)], T, a, TOL32, seed, tr and (a, b) == tuple(convs[0]), acc, f"everyk>dtype({a}->{b})", L)
             elif kind == "EE":
                 n1 = len(ref.saved_indices(T, k, start))
                 for k2, s2 in convs:
